@@ -3,7 +3,7 @@ CONSTANTS
   Digests = {"d1","d2"}
   Kinds = {"exact","flipped","trunc"}
   VerifyMem = TRUE
-  FenceWriters = TRUE
+  FenceWriters = FALSE
   MaxRetries = 2
 INVARIANT Inv
 PROPERTY FailedWriteLeavesNothing
